@@ -222,7 +222,13 @@ int skinny128_ctr_init(Skinny128CTR_t *ctr)
     ctr->vtable = vtable;
 
     /* Initialize the CTR mode context */
-    return (*(vtable->init))(ctr);
+    if (!(*(vtable->init))(ctr)) {
+        /* Leave an inert object behind if the allocation failed */
+        ctr->vtable = 0;
+        ctr->ctx = 0;
+        return 0;
+    }
+    return 1;
 }
 
 void skinny128_ctr_cleanup(Skinny128CTR_t *ctr)
